@@ -140,6 +140,9 @@ def run(chk):
     if not proved and not found:
         where, pout = getattr(chk, "proof_error", ("?", ""))
         chk.broken("proof obligation Properties/C05.v no longer checks (%s)" % where, pout)
+    # DTLS 1.3 record layer: model Rec/Rec13.v, theorems Properties/C05rec13.v, correspondence legs
+    import rec13lib
+    rec13lib.run_c05(chk)
     chk.finish(
         level="proof",
         rule="per connection (15 suite/CID/padding variants): every single-bit flip of the record header, bit flips "
@@ -148,4 +151,4 @@ def run(chk):
              "the genuine record; finally a replay. Non-trivial = non-genuine arrival; distinct by (variant, mutation).",
         assumptions=["int_ctxt: a record authenticates under a header only if the peer sealed it under exactly that "
                      "header (AEAD/CBC-HMAC integrity; AAD/nonce injectivity is C10's theorem)",
-                     "DTLS 1.3 record path is not in this model (covered by C20's model and monitors)"])
+                     "the DTLS 1.3 record path has its own model Rec/Rec13.v and theorems Properties/C05rec13.v (leg rec13)"])
